@@ -247,6 +247,15 @@ def run_copy(case, ctx):
             b = (sorted(b[0]),) + b[1:]
         if sim.N != cp.N or a != b:
             raise Violation("copy (%s) and source diverge after %d steps each" % (route, n), route=route)
+        # identical histories -> identical persisted content -> compare must still say "equal"
+        # (a difference here can only come from something that is not a quantity of the simulation, e.g. an address)
+        ma, mb = rb.smap(sim, keep_funcptr=True), rb.smap(cp, keep_funcptr=True)
+        if not case.get("tree") and ma == mb:
+            e = equal_both(sim, cp)
+            if not all(e):
+                raise Violation("after the same %d steps copy (%s) and source hold identical persisted quantities but "
+                                "compare reports a difference (==: %s, diff: %s, reversed: %s)" % (n, route, e[0], e[1], e[2]),
+                                route=route)
     ctx.cls(route)
     if classify(case, sim, ctx):
         ctx.nontrivial()
